@@ -40,7 +40,7 @@ SolveTail  == /\ s.pc = "solvetail"         /\ s' = SolveEnd(s) /\ UNCHANGED cal
 
 Begin      == /\ s.pc = "dgi" /\ s.left > 0
               /\ IF s.first THEN s' = BeginFirst(s)
-                 ELSE \E s1 \in {Recalced(s)} : \E e \in MaxEntries(s1.queue) : s' = BeginIter(s1, e)
+                 ELSE \E s1 \in {Refilled(Recalced(s))} : \E e \in MaxEntries(s1.queue) : s' = BeginIter(s1, e)
               /\ UNCHANGED calls
 ObjReturns == /\ s.pc = "eval" /\ \E z \in Vals : s' = Eval(s, z) /\ UNCHANGED calls
 ObjRaises  == /\ s.pc = "eval" /\ Faults /\ s' = Raise(s) /\ UNCHANGED calls
